@@ -41,7 +41,7 @@ theorem miter_defaults (c0 c1 : Circuit) (ord : Ord) (hord : OrdOK ord) (hne : c
     | nil => exact absurd h hne
     | cons a l => rfl
   unfold Tx.miter
-  simp only [h1, Bool.false_eq_true, if_false, ite_self]
+  simp only [h1, Bool.false_eq_true, if_false]
 
 /-- circuits with blackboxes are rejected -/
 theorem miter_rejects_blackboxes (c0 c1 : Circuit) (sp? ep? : Option (List Name)) (ord : Ord)
@@ -66,14 +66,14 @@ theorem miter_rejects_blackboxes (c0 c1 : Circuit) (sp? ep? : Option (List Name)
     `c0` and `c1`, the tied startpoints feed both copies, and `sat` is 1 exactly when some compared endpoint takes
     different values in the two copies; the miter's inputs are exactly the tied startpoints -/
 theorem miter_sem (c0 c1 m : Circuit) (sp ep : List Name) (ord : Ord) (hord : OrdOK ord)
-    (h0 : Good c0) (h1 : Good c1) (hne : c1.nodes ≠ []) (hs : Shared c0 c1 sp ep) (hsp : sp ≠ []) (hep : ep ≠ [])
+    (h0 : Good c0) (h1 : Good c1) (hne : c1.nodes ≠ []) (hs : Shared c0 c1 sp ep)
     (h : Tx.miter c0 (some c1) (some sp) (some ep) ord = .ok m) :
     (∀ v, Consistent m v →
         Consistent c0 (fun n => v ("c0_" ++ n)) ∧ Consistent c1 (fun n => v ("c1_" ++ n)) ∧
         (∀ s ∈ sp, v ("c0_" ++ s) = v s ∧ v ("c1_" ++ s) = v s) ∧
         (v "sat" = true ↔ ∃ e ∈ ep, v ("c0_" ++ e) ≠ v ("c1_" ++ e))) ∧
     (∀ x, x ∈ m.inputs ↔ x ∈ sp) ∧ m.outputs = ["sat"] := by
-  have V := mview_of_ok h0.clean h1.clean h0.nobb h1.nobb hne hsp hep h
+  have V := mview_of_ok h0.clean h1.clean h0.nobb h1.nobb hne h
   have w0 := h0.clean.toWF
   have w1 := h1.clean.toWF
   have hin0 : ∀ s ∈ sp, s ∈ c0.inputs := fun s hs' => (hs.sp0 s hs').1
@@ -89,20 +89,20 @@ theorem miter_sem (c0 c1 m : Circuit) (sp ep : List Name) (ord : Ord) (hord : Or
     rw [pref_c0] at a
     rw [pref_c1] at b
     exact ⟨a, b⟩
-  · have := V.sem_sat hs.epNodup hep v hv
+  · have := V.sem_sat hs.epNodup v hv
     simpa only [pref_c0, pref_c1] using this
 
 /-- untied startpoints of each copy are independent free signals: every pair of consistent valuations of the two
     circuits that agree on the tied startpoints arises from a consistent valuation of the miter -/
 theorem miter_complete (c0 c1 m : Circuit) (sp ep : List Name) (ord : Ord) (hord : OrdOK ord)
-    (h0 : Good c0) (h1 : Good c1) (hne : c1.nodes ≠ []) (hs : Shared c0 c1 sp ep) (hsp : sp ≠ []) (hep : ep ≠ [])
+    (h0 : Good c0) (h1 : Good c1) (hne : c1.nodes ≠ []) (hs : Shared c0 c1 sp ep)
     (h : Tx.miter c0 (some c1) (some sp) (some ep) ord = .ok m)
     (v0 v1 : Val) (hv0 : Consistent c0 v0) (hv1 : Consistent c1 v1) (hag : ∀ s ∈ sp, v0 s = v1 s) :
     ∃ v, Consistent m v ∧ (∀ n, c0.has n = true → v ("c0_" ++ n) = v0 n) ∧
       (∀ n, c1.has n = true → v ("c1_" ++ n) = v1 n) ∧ (∀ s ∈ sp, v s = v0 s) := by
-  have V := mview_of_ok h0.clean h1.clean h0.nobb h1.nobb hne hsp hep h
+  have V := mview_of_ok h0.clean h1.clean h0.nobb h1.nobb hne h
   refine ⟨mval c0 c1 sp ep v0 v1, ?_, ?_, ?_, ?_⟩
-  · exact V.complete h0.clean.toWF h1.clean.toWF hs.spNodup hs.epNodup hep (fun s hs' => (hs.sp0 s hs').1)
+  · exact V.complete' h0.clean.toWF h1.clean.toWF hs.spNodup hs.epNodup (fun s hs' => (hs.sp0 s hs').1)
       (fun s hs' => (hs.sp0 s hs').2) (noFanin_inputs h0.clean) (noFanin_inputs h1.clean) hs.ep0 v0 v1 hv0 hv1 hag
   · intro n hn
     rw [← pref_c0]
@@ -117,13 +117,12 @@ theorem miter_complete (c0 c1 m : Circuit) (sp ep : List Name) (ord : Ord) (hord
     circuits agree on every compared endpoint for all valuations that agree on the tied startpoints -/
 theorem miter_unsat_iff_equiv (s : Solver) (hss : SolverSpec s) (c0 c1 m : Circuit) (sp ep : List Name) (ord : Ord)
     (hord : OrdOK ord) (h0 : Good c0) (h1 : Good c1) (hne : c1.nodes ≠ []) (hs : Shared c0 c1 sp ep)
-    (hsp : sp ≠ []) (hep : ep ≠ [])
     (hx : ∀ p ∈ c0.nodes ++ c1.nodes, p.2.ty ≠ some "x")
     (h : Tx.miter c0 (some c1) (some sp) (some ep) ord = .ok m) :
     solve s m ord [("sat", true)] = .ok none ↔
       ∀ v0 v1, Consistent c0 v0 → Consistent c1 v1 → (∀ x ∈ sp, v0 x = v1 x) → ∀ e ∈ ep, v0 e = v1 e := by
-  have V := mview_of_ok h0.clean h1.clean h0.nobb h1.nobb hne hsp hep h
-  have hclean : C01.Clean m := V.clean h0.clean h1.clean hs.spNodup hs.epNodup hep (fun s hs' => (hs.sp0 s hs').1)
+  have V := mview_of_ok h0.clean h1.clean h0.nobb h1.nobb hne h
+  have hclean : C01.Clean m := V.clean' h0.clean h1.clean hs.spNodup hs.epNodup (fun s hs' => (hs.sp0 s hs').1)
     (fun s hs' => (hs.sp0 s hs').2) (fun p hp => hx p (List.mem_append.2 (Or.inl hp)))
     (fun p hp => hx p (List.mem_append.2 (Or.inr hp)))
   have hin : ∀ p ∈ [("sat", true)], m.has p.1 = true := by
@@ -132,11 +131,11 @@ theorem miter_unsat_iff_equiv (s : Solver) (hss : SolverSpec s) (c0 c1 m : Circu
     subst hp
     exact V.has_sat
   have S := (C01.solve_spec s hss m ord hord hclean [("sat", true)] hin).1
-  obtain ⟨sem, _, _⟩ := miter_sem c0 c1 m sp ep ord hord h0 h1 hne hs hsp hep h
+  obtain ⟨sem, _, _⟩ := miter_sem c0 c1 m sp ep ord hord h0 h1 hne hs h
   rw [S]
   constructor
   · intro hno v0 v1 hv0 hv1 hag e he
-    obtain ⟨v, hv, a0, a1, _⟩ := miter_complete c0 c1 m sp ep ord hord h0 h1 hne hs hsp hep h v0 v1 hv0 hv1 hag
+    obtain ⟨v, hv, a0, a1, _⟩ := miter_complete c0 c1 m sp ep ord hord h0 h1 hne hs h v0 v1 hv0 hv1 hag
     apply Classical.byContradiction
     intro hd
     apply hno
@@ -156,21 +155,33 @@ theorem miter_unsat_iff_equiv (s : Solver) (hss : SolverSpec s) (c0 c1 m : Circu
     intro x hx'
     rw [(kt x hx').1, (kt x hx').2]
 
+/-- with an explicitly empty endpoint list nothing is compared: `sat` is a constant `"0"` without fan-in, hence 0 in
+    every consistent valuation (the miter is unsatisfiable under `sat = 1`) -/
+theorem miter_empty_endpoints (c0 c1 m : Circuit) (sp : List Name) (ord : Ord)
+    (h0 : Good c0) (h1 : Good c1) (hne : c1.nodes ≠ [])
+    (h : Tx.miter c0 (some c1) (some sp) (some []) ord = .ok m) :
+    m.ty? "sat" = some "0" ∧ m.fanin "sat" = [] ∧ ∀ v, Consistent m v → v "sat" = false := by
+  have V := mview_of_ok h0.clean h1.clean h0.nobb h1.nobb hne h
+  refine ⟨ty?_of_mem V.wf.nodup V.mem_sat rfl, ?_, fun v hv => ?_⟩
+  · rw [V.fanin_sat]; rfl
+  · apply hv _ V.mem_sat "0" rfl
+    unfold gateFn
+    simp
+
 /-- the miter is built (no ValueError) whenever the synthesised names do not collide: no tied startpoint is called
     `sat` or carries a `c0_`/`c1_`/`dif_` prefix that meets a copied node or a comparator.
-    ADDED hypotheses (the statement without them is false, `CG/Proofs/MiterCex.lean`):
-    `hsp`, `hep` — explicit startpoints/endpoints are given (with an empty list the code falls back to the shared
-      startpoints/endpoints, about which `hclash`/`hnames` say nothing: an input called `sat` then collides);
+    An empty `sp` / `ep` is an explicit choice (nothing tied / nothing compared, K51 repair), so no non-emptiness
+    hypothesis is needed any more.
+    ADDED hypothesis (the statement without it is false, `CG/Proofs/MiterCex.lean`):
     `hept` — no compared endpoint is a blackbox pin node (`connect` refuses `bb_input` as a driver and lets a
       `bb_output` drive only a `buf`, so the `xor` comparator cannot be attached). -/
 theorem miter_ok (c0 c1 : Circuit) (sp ep : List Name) (ord : Ord) (hord : OrdOK ord)
     (h0 : Good c0) (h1 : Good c1) (hne : c1.nodes ≠ []) (hs : Shared c0 c1 sp ep)
     (hnames : ∀ p ∈ c0.nodes ++ c1.nodes, p.1 ≠ "" ∧ Circuit.isDigit0 p.1 = false)
     (hclash : ∀ s ∈ sp, s ≠ "sat" ∧ (∀ n, s ≠ "c0_" ++ n) ∧ (∀ n, s ≠ "c1_" ++ n) ∧ (∀ n, s ≠ "dif_" ++ n))
-    (hsp : sp ≠ []) (hep : ep ≠ [])
     (hept : ∀ e ∈ ep, ∀ t, (c0.ty? e = some t ∨ c1.ty? e = some t) → t ≠ "bb_input" ∧ t ≠ "bb_output") :
     ∃ m, Tx.miter c0 (some c1) (some sp) (some ep) ord = .ok m := by
-  apply miter_ok_pref ord _ h0.nobb h1.nobb hne hsp hep
+  apply miter_ok_pref ord _ h0.nobb h1.nobb hne
   refine ⟨h0.clean, h1.clean, hs.spNodup, hs.epNodup, hs.sp0, hs.ep0, ?_, ?_, hept⟩
   · intro s hs'
     obtain ⟨a, ha⟩ := has_exists (mem_inputs_has (hs.sp0 s hs').1)
@@ -207,5 +218,63 @@ example : ∀ e ∈ ["o"], ∀ t, (cA.ty? e = some t ∨ cB.ty? e = some t) → 
   have hB : cB.ty? "o" = some "nand" := by decide
   rw [hA, hB] at h
   rcases h with h | h <;> (injection h with h; subst h; decide)
+
+
+/-! non-vacuity of the repaired cases: an explicitly EMPTY startpoint list (nothing tied: the inputs of the two copies
+    are independent, the miter has no inputs) and an explicitly EMPTY endpoint list (nothing compared) -/
+theorem cA_good : Good cA :=
+  ⟨Limit.lintClean_of_checks cA ⟨by decide, by decide, by decide⟩ (by decide) (by decide) (by decide), rfl⟩
+theorem cB_good : Good cB :=
+  ⟨Limit.lintClean_of_checks cB ⟨by decide, by decide, by decide⟩ (by decide) (by decide) (by decide), rfl⟩
+
+example : (Tx.miter cA (some cB) (some []) (some ["o"]) id).toOption.map (fun m => (m.nodes.length, m.inputs)) =
+    some (8, []) := by decide
+example : (Tx.miter cA (some cB) (some ["a"]) (some []) id).toOption.map (fun m => (m.nodes.length, m.ty? "sat")) =
+    some (8, some "0") := by decide
+
+/-- `miter_ok` and `miter_sem` instantiated with `sp = []` -/
+example : ∃ m, Tx.miter cA (some cB) (some []) (some ["o"]) id = .ok m ∧
+    (∀ v, Consistent m v →
+        Consistent cA (fun n => v ("c0_" ++ n)) ∧ Consistent cB (fun n => v ("c1_" ++ n)) ∧
+        (v "sat" = true ↔ ∃ e ∈ ["o"], v ("c0_" ++ e) ≠ v ("c1_" ++ e))) ∧
+    (∀ x, x ∉ m.inputs) ∧ m.outputs = ["sat"] := by
+  have hS : Shared cA cB [] ["o"] := ⟨by decide, by decide, by decide, by decide⟩
+  have hord : OrdOK id := fun l => List.Perm.refl l
+  obtain ⟨m, hm⟩ := miter_ok cA cB [] ["o"] id hord cA_good cB_good (by decide) hS (by decide)
+    (fun s hs => by cases hs)
+    (by
+      intro e he t h
+      simp only [List.mem_singleton] at he
+      subst he
+      have hA : cA.ty? "o" = some "and" := by decide
+      have hB : cB.ty? "o" = some "nand" := by decide
+      rw [hA, hB] at h
+      rcases h with h | h <;> (injection h with h; subst h; decide))
+  obtain ⟨sem, hin, hout⟩ := miter_sem cA cB m [] ["o"] id hord cA_good cB_good (by decide) hS hm
+  refine ⟨m, hm, fun v hv => ?_, fun x hx => ?_, hout⟩
+  · obtain ⟨k0, k1, _, ks⟩ := sem v hv
+    exact ⟨k0, k1, ks⟩
+  · have := (hin x).1 hx
+    cases this
+
+/-- `miter_ok`, `miter_sem`, `miter_empty_endpoints` and `miter_unsat_iff_equiv` instantiated with `ep = []` -/
+example (s : Solver) (hss : SolverSpec s) : ∃ m, Tx.miter cA (some cB) (some ["a"]) (some []) id = .ok m ∧
+    (∀ v, Consistent m v → v "sat" = false) ∧ solve s m id [("sat", true)] = .ok none := by
+  have hS : Shared cA cB ["a"] [] := ⟨by decide, by decide, by decide, by decide⟩
+  have hord : OrdOK id := fun l => List.Perm.refl l
+  obtain ⟨m, hm⟩ := miter_ok cA cB ["a"] [] id hord cA_good cB_good (by decide) hS (by decide)
+    (by
+      intro s hs
+      simp only [List.mem_singleton] at hs
+      subst hs
+      refine ⟨by decide, fun n e => ?_, fun n e => ?_, fun n e => ?_⟩ <;>
+      · have := congrArg String.toList e
+        rw [String.toList_append] at this
+        simp at this)
+    (fun e he => by cases he)
+  refine ⟨m, hm, (miter_empty_endpoints cA cB m ["a"] id cA_good cB_good (by decide) hm).2.2, ?_⟩
+  rw [miter_unsat_iff_equiv s hss cA cB m ["a"] [] id hord cA_good cB_good (by decide) hS (by decide) hm]
+  intro v0 v1 _ _ _ e he
+  cases he
 
 end CG.C04
